@@ -209,6 +209,8 @@ package core
 //@   requires buf != nil && codec.bwf(buf)
 //@   ensures[wf] codec.bwf(buf) && buf.buf == old(buf.buf) && buf.r >= old(buf.r)
 //@   ensures[extent] result1 == nil ==> value_unfold(buf.buf, old(buf.r)) && value_ok(buf.buf, old(buf.r)) && buf.r == value_end(buf.buf, old(buf.r))
+//@   ensures[progress@C11] result1 == nil ==> buf.r >= old(buf.r) + 3
+//@   ensures[errs] result1 != codec.MovedOrAsk && result1 != codec.Continue
 //@   ensures[type.line] (result1 == nil && old(buf.buf[buf.r]) == '+') ==> (result0 == codec.RspOk || result0 == codec.RspPong || result0 == codec.RspStatus)
 //@   ensures[type.int] (result1 == nil && old(buf.buf[buf.r]) == ':') ==> result0 == codec.RspInteger
 //@   ensures[type.bulk] (result1 == nil && old(buf.buf[buf.r]) == '$') ==> result0 == codec.RspBulk
@@ -218,7 +220,7 @@ package core
 //@   ensures[type.iserr@C11] (result1 == nil && (result0 == codec.RspError || result0 == codec.RspNeedAuth || result0 == codec.RspAuthFailed || result0 == codec.RspNeedNtAuth)) ==> old(buf.buf[buf.r]) == '-'
 //@   loop 0
 //@     modifies buf.r
-//@     invariant 0 <= i && i <= n && codec.bwf(buf) && buf.buf == old(buf.buf) && buf.r >= pre(buf.r)
+//@     invariant 0 <= i && i <= n && codec.bwf(buf) && buf.buf == old(buf.buf) && buf.r >= pre(buf.r) && pre(buf.r) >= old(buf.r) + 3
 //@     invariant elems_ok(buf.buf, i, pre(buf.r)) && buf.r == elems_end(buf.buf, i, pre(buf.r))
 //@     invariant elems_snoc(buf.buf, i, pre(buf.r)) && elems_unfold(buf.buf, i, pre(buf.r))
 
@@ -233,3 +235,130 @@ package core
 //@   ensures[copy@C02,C11] len(f.RspBody) <= rc.MsgMaxLength ==> bytes_eq(f.Peer.RspBody, f.RspBody) && f.Peer.Error == old(f.Peer.Error)
 //@   ensures[toolarge@C17] len(f.RspBody) > rc.MsgMaxLength ==> bytes_eq(f.Peer.RspBody, "-ERR rsp msg length too large\r\n") && f.Peer.Error == codec.ErrMsgRspTooLarge
 //@   ensures[src] unchanged(f.RspBody) && result == nil
+
+//@ define intreply(b) = len(b) >= 4 && b[0] == ':' && canon(b[1 : len(b) - 2])
+//@ define intval(b) = dec(b[1 : len(b) - 2], len(b) - 3)
+
+//@ func SRespCodec.Del
+//@   props C07 C11
+//@   modifies f.Done, f.Peer.DelNum, f.Peer.Done, f.Peer.RspBody, capmem(f.Peer.RspBody)
+//@   requires f != nil && f.Peer != nil && intreply(f.RspBody) && sepbody(f)
+//@   ensures[sum] f.Peer.DelNum == old(f.Peer.DelNum) + old(intval(f.RspBody)) && f.Done
+//@   ensures[wait] f.Peer.FragDoneNumber < len(f.Peer.Body) ==> result == codec.Continue && f.Peer.Done == old(f.Peer.Done) && f.Peer.RspBody == old(f.Peer.RspBody)
+//@   ensures[final] f.Peer.FragDoneNumber >= len(f.Peer.Body) ==> result == nil && f.Peer.Done
+//@       && bytes_eq(f.Peer.RspBody, s_cat(":", s_cat(itoa(f.Peer.DelNum), "\r\n")))
+
+//@ func SRespCodec.MSet
+//@   props C07 C11
+//@   modifies f.Ok, f.Done, f.Peer.Done, f.Peer.RspBody, capmem(f.Peer.RspBody)
+//@   requires f != nil && f.Peer != nil && sepbody(f)
+//@   requires forall k int32 :: has(f.Peer.Body, k) ==> f.Peer.Body[k] != nil
+//@   ensures[ok] f.Ok == (f.Type == codec.RspOk) && f.Done
+//@   ensures[wait] f.Peer.FragDoneNumber < len(f.Peer.Body) ==> result == codec.Continue && f.Peer.Done == old(f.Peer.Done) && f.Peer.RspBody == old(f.Peer.RspBody)
+//@   ensures[final.ok] (f.Peer.FragDoneNumber >= len(f.Peer.Body) && (forall k int32 :: has(f.Peer.Body, k) ==> f.Peer.Body[k].Ok))
+//@       ==> result == nil && f.Peer.Done && bytes_eq(f.Peer.RspBody, "+OK\r\n")
+//@   ensures[final.err] (f.Peer.FragDoneNumber >= len(f.Peer.Body) && !(forall k int32 :: has(f.Peer.Body, k) ==> f.Peer.Body[k].Ok))
+//@       ==> result == nil && f.Peer.Done && bytes_eq(f.Peer.RspBody, "-ERR unknown error\r\n")
+//@   loop 0
+//@     modifies nothing
+//@     invariant forall k int32 :: visited(k) ==> f.Peer.Body[k].Ok
+
+//@ define arrhdr(b) = len(b) >= 1 && line_ok(b, 0) && b[0] == '*' && canon(hdr_slice(b, 0))
+//@ define arrn(b) = dec(hdr_slice(b, 0), len(hdr_slice(b, 0)))
+//@ define arr0(b) = line_end(b, 0)
+//@ define elemlo(b, i) = elems_end(b, i, arr0(b))
+//@ define allbulk(b) = forall i int :: 0 <= i && i < arrn(b) ==> b[elemlo(b, i)] == '$'
+
+//@ func SRespCodec.parseMGet
+//@   props C07 C11
+//@   modifies codec.buffer.r, codec.buffer.buf
+//@   requires f != nil && arrhdr(f.RspBody) && value_ok(f.RspBody, 0) && value_end(f.RspBody, 0) == len(f.RspBody) && allbulk(f.RspBody)
+//@   ensures[len] len(result) == arrn(f.RspBody)
+//@   ensures[elems] forall i int :: 0 <= i && i < len(result) ==> bytes_eq(result[i], f.RspBody[elemlo(f.RspBody, i) : elemlo(f.RspBody, i + 1)])
+//@   loop 0
+//@     modifies codec.buffer.r, capmem(msg)
+//@     invariant codec.buffer.buf == f.RspBody && codec.bwf(buf) && buf == codec.buffer && fresh(msg) && sameback(msg)
+//@     invariant elems_snoc(f.RspBody, len(msg), arr0(f.RspBody)) && elems_unfold(f.RspBody, arrn(f.RspBody) - len(msg), buf.r)
+//@         && value_unfold(f.RspBody, buf.r) && elems_unfold(f.RspBody, len(msg), arr0(f.RspBody))
+//@     invariant 0 <= len(msg) && len(msg) <= arrn(f.RspBody) && buf.r == elemlo(f.RspBody, len(msg))
+//@     invariant elems_ok(f.RspBody, arrn(f.RspBody) - len(msg), buf.r) && elems_end(f.RspBody, arrn(f.RspBody) - len(msg), buf.r) == len(f.RspBody)
+//@     invariant forall i int :: 0 <= i && i < len(msg) ==> bytes_eq(msg[i], f.RspBody[elemlo(f.RspBody, i) : elemlo(f.RspBody, i + 1)])
+
+//@ define mgetready(m) = forall s int32 :: has(m.Frags, s) ==> (has(m.Body, s) && m.Body[s] != nil && len(m.Body[s].Rsp) == len(m.Frags[s]))
+
+//@ func SRespCodec.MGet
+//@   props C07 C11
+//@   modifies f.Rsp, f.Done, f.Error, f.Peer.Done, f.Peer.Error, f.Peer.RspBody, capmem(f.Peer.RspBody), codec.buffer.r, codec.buffer.buf
+//@   requires f != nil && f.Peer != nil && sepbody(f)
+//@   requires arrhdr(f.RspBody) && value_ok(f.RspBody, 0) && value_end(f.RspBody, 0) == len(f.RspBody) && allbulk(f.RspBody)
+//@   requires f.Peer.FragDoneNumber >= len(f.Peer.Body) ==> (forall s int32 :: (has(f.Peer.Frags, s) && f.Peer.Body[s] != f) ==> len(f.Peer.Body[s].Rsp) == len(f.Peer.Frags[s]))
+//@   requires forall s int32 :: has(f.Peer.Frags, s) ==> (has(f.Peer.Body, s) && f.Peer.Body[s] != nil)
+//@   requires forall s int32 :: (has(f.Peer.Body, s) && f.Peer.Body[s] == f) ==> len(f.Peer.Frags[s]) == arrn(f.RspBody)
+//@   ensures[done] f.Done && len(f.Rsp) == arrn(f.RspBody)
+//@   ensures[empty] arrn(f.RspBody) < 1 ==> f.Error == codec.ErrUnKnownMget && result == nil
+//@   ensures[wait] (arrn(f.RspBody) >= 1 && f.Peer.FragDoneNumber < len(f.Peer.Body)) ==> result == codec.Continue && f.Peer.Done == old(f.Peer.Done) && f.Peer.RspBody == old(f.Peer.RspBody)
+//@   ensures[final] (arrn(f.RspBody) >= 1 && f.Peer.FragDoneNumber >= len(f.Peer.Body)) ==> result == nil && f.Peer.Done
+//@   ensures[toolarge@C17] (old(f.Peer.Error) != codec.ErrMsgRspTooLarge && f.Peer.Error == codec.ErrMsgRspTooLarge) ==> bytes_eq(f.Peer.RspBody, "-ERR rsp msg length too large\r\n")
+//@   loop 0
+//@     modifies f.Peer.RspBody, capmem(f.Peer.RspBody)
+//@     invariant 0 <= rangeindex + 1 && rangeindex + 1 <= len(msg.Keys) && msg == f.Peer && sameback(msg.RspBody)
+//@   loop 1
+//@     modifies nothing
+//@     invariant 0 <= rangeindex#1 + 1 && msg == f.Peer
+
+//@ define inq(s) = sc(s).inFragQueue
+
+//@ func SRespCodec.Decode
+//@   props C02 C03 C07 C11 C13
+//@   modifies codec.buffer.r, codec.buffer.buf, inq(s).head, inq(s).tail, inq(s).count, Frag.next, Frag.prev
+//@   modifies inq(s).head.Type, inq(s).head.RspBody, capmem(inq(s).head.RspBody)
+//@   modifies conn.buffer, ring.Buffer.r, ring.Buffer.w, ring.Buffer.isEmpty, elastic.RingBuffer.rb
+//@   requires s != nil && inq(s) != nil && fwf(inq(s))
+//@   ensures[wf] fwf(inq(s))
+//@   ensures[head@C03] result1 == nil ==> result0 != nil && result0 == old(inq(s).head) && inq(s).count == old(inq(s).count) - 1
+//@   ensures[shift@C03] result1 == nil ==> forall i int :: 0 <= i && i < inq(s).count ==> fq(inq(s), i) == old(fq(inq(s), i + 1))
+//@   ensures[extent@C02] result1 == nil ==> value_ok(codec.buffer.buf, 0) && codec.buffer.r == value_end(codec.buffer.buf, 0)
+//@   ensures[body@C02] result1 == nil ==> bytes_eq(result0.RspBody, codec.buffer.buf[0:codec.buffer.r])
+//@   ensures[errs] result1 != codec.MovedOrAsk && result1 != codec.Continue
+//@   ensures[first] result1 == nil ==> len(result0.RspBody) >= 3
+//@   ensures[backing] result1 == nil ==> (result0.RspBody.base == old(inq(s).head.RspBody.base) || fresh(result0.RspBody))
+//@   ensures[errtype@C11] (result1 == nil && result0.RspBody[0] == '-' && !errprefix(str(codec.buffer.buf[0 : bidx(codec.buffer.buf, '\n') - 1]))) ==> result0.Type == codec.RspError
+//@   ensures[redirect@C13] (result1 == nil && (result0.Type == codec.RspMoved || result0.Type == codec.RspAsk)) ==> result0.RspBody[0] == '-'
+//@   ensures[noeffect] (result1 != nil) ==> inq(s).count == old(inq(s).count) && inq(s).head == old(inq(s).head)
+//@   ensures[other] result1 == nil ==> result0.Owner == old(inq(s).head.Owner) && result0.Peer == old(inq(s).head.Peer) && result0.Done == old(inq(s).head.Done) && result0.Error == old(inq(s).head.Error)
+
+// ---- conn.sread: one backend reply matched with the oldest in-flight fragment ----
+//@ define hd(c) = c.inFragQueue.head
+//@ define split(m) = m.Type == codec.ReqMget || m.Type == codec.ReqMset || m.Type == codec.ReqDel
+//@ define redirect(f) = f.Type == codec.RspMoved || f.Type == codec.RspAsk
+
+//@ func conn.sread
+//@   props C02 C03 C07 C11 C13 C16
+//@   modifies codec.buffer.r, codec.buffer.buf, c.inFragQueue.head, c.inFragQueue.tail, c.inFragQueue.count, Frag.next, Frag.prev
+//@   modifies hd(c).Type, hd(c).RspBody, capmem(hd(c).RspBody), hd(c).Error, hd(c).Rsp, hd(c).Ok, Frag.Done
+//@   modifies conn.buffer, ring.Buffer.r, ring.Buffer.w, ring.Buffer.isEmpty, elastic.RingBuffer.rb, c.initStatus
+//@   modifies hd(c).Peer.FragDoneNumber, hd(c).Peer.DelNum, hd(c).Peer.Done, hd(c).Peer.Error, hd(c).Peer.RspBody, capmem(hd(c).Peer.RspBody)
+//@   requires c.inFragQueue != nil && fwf(c.inFragQueue) && EngineGlobal != nil
+//@   requires (hd(c) != nil && hd(c).Peer != nil) ==> (forall k int32 :: has(hd(c).Peer.Body, k) ==> hd(c).Peer.Body[k] != nil)
+//@   requires (hd(c) != nil && hd(c).Peer != nil) ==> (hd(c).Peer.RspBody == nil || hd(c).RspBody == nil || hd(c).RspBody.base != hd(c).Peer.RspBody.base)
+//@   assume at call SRespCodec.MGet#0 :: arrhdr(f.RspBody) && value_end(f.RspBody, 0) == len(f.RspBody) && value_ok(f.RspBody, 0) && allbulk(f.RspBody)
+//@       && (f.Peer.FragDoneNumber >= len(f.Peer.Body) ==> (forall s int32 :: (has(f.Peer.Frags, s) && f.Peer.Body[s] != f) ==> len(f.Peer.Body[s].Rsp) == len(f.Peer.Frags[s])))
+//@       && (forall s int32 :: has(f.Peer.Frags, s) ==> (has(f.Peer.Body, s) && f.Peer.Body[s] != nil))
+//@       && (forall s int32 :: (has(f.Peer.Body, s) && f.Peer.Body[s] == f) ==> len(f.Peer.Frags[s]) == arrn(f.RspBody))
+//@   assume at call SRespCodec.Del#0 :: intreply(f.RspBody)
+//@   ensures[wf] fwf(c.inFragQueue)
+//@   ensures[head@C03] (err == nil || err == codec.MovedOrAsk) ==> f == old(hd(c)) && f != nil
+//@   ensures[redirect@C13] err == codec.MovedOrAsk ==> redirect(f) && f.Owner != nil && f.Peer != nil && f.Done == old(hd(c).Done)
+//@       && f.Peer.FragDoneNumber == old(hd(c).Peer.FragDoneNumber) && f.Peer.Done == old(hd(c).Peer.Done) && f.Peer.RspBody == old(hd(c).Peer.RspBody) && f.Peer.DelNum == old(hd(c).Peer.DelNum)
+//@   ensures[late@C16] (err == codec.Continue && f == nil) ==> old(hd(c)) != nil && old(hd(c).Done)
+//@       && old(hd(c)).Peer.Done == old(hd(c).Peer.Done) && old(hd(c)).Peer.RspBody == old(hd(c).Peer.RspBody) && old(hd(c)).Peer.FragDoneNumber == old(hd(c).Peer.FragDoneNumber)
+//@   ensures[single@C02,C11] (err == nil && f.Owner != nil && f.Peer != nil && !split(f.Peer) && len(f.RspBody) <= EngineGlobal.sCodec.MsgMaxLength && old(hd(c).Error) == "")
+//@       ==> f.Peer.Done && f.Done && bytes_eq(f.Peer.RspBody, f.RspBody)
+//@   ensures[spliterr@C11] (err == nil && f.Owner != nil && f.Peer != nil && split(f.Peer) && f.RspBody[0] == '-' && len(f.RspBody) <= EngineGlobal.sCodec.MsgMaxLength && old(hd(c).Error) == "")
+//@       ==> f.Peer.Done && bytes_eq(f.Peer.RspBody, f.RspBody) && (forall k int32 :: has(f.Peer.Body, k) ==> f.Peer.Body[k].Done)
+//@   ensures[toolarge@C17] (err == nil && f.Owner != nil && f.Peer != nil && len(f.RspBody) > EngineGlobal.sCodec.MsgMaxLength)
+//@       ==> f.Peer.Done && bytes_eq(f.Peer.RspBody, "-ERR rsp msg length too large\r\n")
+//@   ensures[count@C07] (err == codec.Continue && f != nil) ==> f.Peer.FragDoneNumber == old(hd(c).Peer.FragDoneNumber) + 1 && f.Done
+//@   loop 0
+//@     modifies Frag.Done
+//@     invariant forall k int32 :: visited(k) ==> msg.Body[k].Done
